@@ -28,7 +28,7 @@ T == INSTANCE Trim WITH
         pc <- IF pc = "loop" THEN "loop" ELSE "done",
         mask <- ToSet(mask),
         amb <- AmbSet,
-        Vals <- 0..Max2(BigVal, SmallVal), MinLen <- 1, MaxLen <- MaxLen,
+        Vals <- 0..MaxSum, MinLen <- 1, MaxLen <- MaxLen,
         Bins <- Bins, EssPct <- EssPct, MarginInv <- MarginInv
 
 LinkInit == (pc = "loop" /\ i = bins - 1) => T!Init
